@@ -37,7 +37,8 @@ def c09(c):
            "checked against the grid recorded in the result, scripted runs hitting canonical 0 / largest-below-1 / k/bins +-1ulp in every "
            "coordinate, direct vegas_icdf(u=1.0 and u=0), runs with an all-zero iteration, and mpi_vegas runs on the thread MPI shim (2..5 ranks, "
            "iterations with fewer calls than ranks or so few that a rank sees only zeros) where every rank's next grid must be the same judged refinement "
-           "of the reduced data; in every run the proposed next grid is judged against the used grid and the reported adjustment data. non-trivial = non-uniform input grid, "
+           "of the reduced data; in every run (alpha also exactly 0, integrands with exactly-zero regions) the proposed next grid is judged against the used "
+           "grid and the reported adjustment data; single dimensions without information next to dimensions with data must keep their bins. non-trivial = non-uniform input grid, "
            "non-constant data and equidistribution actually judged (direct), or an adaptive run; distinct = hash of (T, grid, data) / run config.",
       assumptions=["equidistribution tolerance 16*(bins+8)*eps_T*sum(imp)*(1+alpha) + 8*eps_T*local density (rounding of the running sums; the boundary is interpolated from the right edge of an old bin, so its absolute error is a few eps of that edge, at most 1)",
                    "dimensions whose smallest smoothed share would be below 64*min_normal(T) are validated for grid validity only (underflow makes T and long double legitimately differ)",
@@ -59,7 +60,8 @@ def c07(c):
       rule="case = one multi_channel_refine_weights call (or chain of up to 20) on (1..64 channels; weights normalised/unnormalised/equal/wide, "
            "with zeros; data all-zero/single-non-zero/wide-range/some-zero/equal/random; beta in (0,1]; min_weight in [0,1/channels)), plus real "
            "hep::multi_channel runs (power-law channels, 2..8/30 iterations, optional all-zero iteration, user weights with disabled channels, optional "
-           "phase-space cut where all densities vanish and the integrand is zero, a third through mpi_multi_channel on the thread shim) whose "
+           "phase-space cut where all densities vanish and the integrand is zero, optional distribution, optional NaN/inf values at 5 % of the points, "
+           "a third through mpi_multi_channel on the thread shim with some iterations of about as many calls as ranks) whose "
            "every used / proposed weight vector is judged. non-trivial = at least two enabled channels with positive data whose proportion was "
            "judged (direct) or an adaptive run; distinct = hash of (T, weights, data) / run config.",
       assumptions=["proportions judged against a long double reference within 16*(n+4)*eps_T relative; channels within 16*(n+2)*eps_T of the floor are ambiguous and skipped",
@@ -135,7 +137,8 @@ def _t_eng_variants(nsets):
            "one of the nine standard engines (started at a random stream offset), dims 1..5, 1..3 iterations with calls in {0,1,7,13,100}, "
            "integrand value pattern in {finite, zero, NaN-mixed, +-inf, mixed}; the integrand reads the raw-draw counter at every invocation. "
            "Plus 128 synthetic engines with ranges 2^j, 2^j+1, 2^j-1, offset (j in 1..63), 2^64 and decimal ranges: measured cost of one canonical "
-           "number vs hep::random_number_usage, and a PLAIN run. Multi-channel integrands take dims random numbers and produce 1..dims coordinates "
+           "number vs hep::random_number_usage, and a PLAIN run. A third of the VEGAS runs start from a bins-only checkpoint that went through text before the first iteration. "
+           "Multi-channel integrands take dims random numbers and produce 1..dims coordinates "
            "(map_dimensions != dimensions). Plus mpi_plain / mpi_vegas / mpi_multi_channel on the thread MPI shim (2..5 ranks, minstd_rand0 and mt19937, "
            "calls also below / just above the number of ranks) with per-rank thread-local draw counters: draws between a rank's own calls, the distance "
            "each rank's generator has moved at every callback, and the generator stored in the checkpoint on every rank. "
@@ -211,7 +214,8 @@ def c02(c):
            "iterations of 100..1200 calls: the poison set is a hash of the sampled point (rate: ~one point in 512, 1%, 30%, 100%), kind NaN / +inf / "
            "-inf / mixed, source integrand return / value handed to projector.add / weight (map jacobian NaN, jacobian inf, all densities zero, "
            "densities of the disabled channels NaN/inf), "
-           "with 1-d or 2-d distributions; the twin returns 0 and omits exactly the non-finite adds. All fields of all iterations, the next "
+           "with 1-d or 2-d distributions; a quarter of the pairs run through mpi_plain / mpi_vegas / mpi_multi_channel on 2..4 thread-shim ranks; "
+           "the twin returns 0 and omits exactly the non-finite adds. All fields of all iterations, the next "
            "grid/weights and the stored generator are compared bitwise; non_zero_calls must differ by the number of poisoned evaluations; "
            "every number of the poisoned run must be finite. non-trivial = adaptive integrator and a poisoned subset that is neither empty "
            "nor everything; distinct = pair configuration hash.",
